@@ -2,6 +2,7 @@ SPECIFICATION Spec
 CONSTANTS
   DMax = 8
 INVARIANT RootIsExact
+INVARIANT ZoomInvariant
 INVARIANT OnlyTheRatioOfMediansCounts
 INVARIANT IncreasesWithLoadMedian
 INVARIANT DecreasesWithStrengthMedian
